@@ -38,6 +38,8 @@ pub fn concurrent_immix_mutator_release<VM: VMBinding>(
     .downcast_mut::<ImmixAllocator<VM>>()
     .unwrap();
     immix_allocator.reset();
+    // Release the allocators of the common spaces (the non-moving space is swept in this pause)
+    crate::plan::mutator_context::common_release_func(mutator, _tls);
 
     // Deactivate SATB
     if current_pause == Pause::Full || current_pause == Pause::FinalMark {
@@ -66,6 +68,7 @@ pub fn concurent_immix_mutator_prepare<VM: VMBinding>(
     .downcast_mut::<ImmixAllocator<VM>>()
     .unwrap();
     immix_allocator.reset();
+    crate::plan::mutator_context::common_prepare_func(mutator, _tls);
 
     // Activate SATB
     if current_pause == Pause::InitialMark {
